@@ -181,7 +181,7 @@ fn add_suspend_resume(sc: &mut Scenario, who: usize, trigger: Trigger, suspensio
 
 pub fn run(ctx: &mut Ctx) {
     ctx.rule = "family 'silence': both modes x closure x 2 NAK procedures x sizes {0,33,100,200}; the entity to be suspended has timers of 1 s and limit 2, its peer 400 s and limit 4; Suspend at the sender \
-or the receiver when the link sees datagram k of either direction, every k of the baseline (exhaustive), Resume 500 ms, 1, 3, 10 or 100 s after the Suspended indication; with the receiver suspended in acknowledged mode additionally a Prompt(NAK) from the sender's user in the middle of the suspension. family 'completion': \
+or the receiver when the link sees datagram k of either direction, every k of the baseline (exhaustive), Resume 500 ms, 1, 3, 10 or 100 s after the Suspended indication; each also with a second Suspend request during the suspension (one Resume must still end it); with the receiver suspended in acknowledged mode additionally a Prompt(NAK) from the sender's user in the middle of the suspension. family 'completion': \
 acknowledged and unacknowledged mode, sizes {33,100,200}, timers 3 s limit 4 on both sides, suspension 0, 500, 3000 or 6000 ms, and in acknowledged mode additionally one lost datagram at every ordinal of either direction. \
 family 'sampled': the general scenario generator (both modes, every configuration, up to 3 faults) with a suspension of 0..8 s at either entity at any datagram, judged for silence and timer faults only. \
 Non-trivial = the suspend was processed while the transaction was still active at that entity; distinct by scenario."
@@ -228,6 +228,17 @@ Non-trivial = the suspend was processed while the transaction was still active a
                                 add_suspend_resume(&mut s, who, tg.clone(), *len);
                                 // unacknowledged transfers cannot recover what a long-suspended receiver's peer... nothing is lost here: success expected
                                 cases.push(C19Case { sc: s.clone(), expect_success: true, peer_long_timers: true });
+                                // the user asks twice: a second Suspend while already suspended changes nothing, one Resume ends it
+                                if *len >= 500 {
+                                    let mut s2 = base.clone();
+                                    add_suspend_resume(&mut s2, who, tg.clone(), *len);
+                                    s2.actions.push(Action {
+                                        trigger: Trigger::OnIndication { entity: who, put: 0, kind: "suspended".into(), delay_ms: len / 4 },
+                                        entity: who,
+                                        kind: ActionKind::Suspend { put: 0 },
+                                    });
+                                    cases.push(C19Case { sc: s2, expect_success: true, peer_long_timers: true });
+                                }
                                 // the peer's user prompts the suspended receiver for a NAK in the middle of the suspension: the answer
                                 // has to wait for the resume
                                 if who == 1 && !unack && *len >= 500 {
